@@ -982,6 +982,18 @@ class C16(PropBase):
         keys = [(int(t["ts"]["ns"]), t["code"] or "", t["desc"] or "", t["uuid"] or "") for t in base["v"]]
         if keys != sorted(keys):
             return {"sig": "order-not-by-instant", "what": "loaded transactions are not in (instant, code, description, uuid) order: %s" % keys[:8]}
+        # the instants themselves: what the generator computed from the written timestamps with the *configured* journal zone
+        # and default time (python arithmetic; fixed-offset zones only - the cases of this class use no other)
+        if case.get("txns") and not (case.get("cfg", {}).get("tz") or {}).get("name"):
+            want = sorted(int(t["ts"]["ns"]) for t in case["txns"])
+            got = sorted(k[0] for k in keys)
+            if want != got:
+                bad = [(a, b) for a, b in zip(got, want) if a != b][:3]
+                return {"sig": "instant-not-as-configured",
+                        "what": "loaded instants differ from the written timestamps read in the configured journal zone %s / default time %s "
+                                "(loaded, expected): %s; options given: %s" % (
+                                    (case["cfg"].get("tz") or {"name": "UTC"}), case["cfg"].get("default_time", "00:00:00"), bad,
+                                    {k: v for k, v in case["cfg"].items() if k.startswith("ov_")})}
         regs = []
         for v, x in zip(case["variants"], runs):
             if x["out"]["txns"] != base:
